@@ -20,7 +20,7 @@ def bad_text_token(t):
     """tokens that are outside the property's quantifier as text cells"""
     tl = t.lower().lstrip("+-")
     return (t == "" or any(ch.isspace() for ch in t) or "#" in t or t.startswith("_") or tl in PANDAS_SPECIAL
-            or t.lower().startswith(RESERVED_PREFIX) or "_" in t and t.replace("_", "").replace(".", "").lstrip("+-").isdigit())
+            or t == "loop_" or "_" in t and t.replace("_", "").replace(".", "").lstrip("+-").isdigit())
 
 
 def tokenize(text):
@@ -43,7 +43,12 @@ def tokenize(text):
                 state = "rows"
             continue
         first = toks[0]
-        if first.startswith("data_") and state in ("seek_block", "rows"):
+        in_table = state in ("labels", "rows") and cur is not None and cur["labels"]
+        if first.startswith("data_") and in_table and len(cur["labels"]) > 1 and len(toks) == len(cur["labels"]) and comment is None:
+            pass        # a table row whose first cell merely looks like a block name (e.g. data_001.mrc)
+        elif first.startswith("data_") and state in ("seek_block", "rows", "labels"):
+            if in_table and len(cur["labels"]) == 1 and len(toks) == 1 and cur["rows"] and state == "rows":
+                raise ValueError("line %d: ambiguous: data_* token in a one-column table" % ln)
             if len(toks) != 1:
                 raise ValueError("line %d: junk after block name" % ln)
             cur = {"name": first, "labels": [], "numbers": [], "rows": []}
